@@ -376,10 +376,23 @@ class Monitor(object):
                 expect_error(cls, 1, cls[1])
             elif c0 == 'openerr':
                 expect_error(cls, 2, cls[1])
+                if ps == 'OPENSENT' and (ns != 'IDLE' or notifs != [(2, cls[1])]):
+                    self.fail('C05', 'an unacceptable peer OPEN (sub-code %d) was not rejected with NOTIFICATION(2,%d): state %s, sent %r' % (
+                        cls[1], cls[1], ns, notifs), 'accept-iff')
             elif c0 == 'open':
                 if ps == 'OPENSENT':
                     if ns != 'OPENCONFIRM' or len(kas) != 1 or notifs or closed:
                         bad('a valid OPEN in OpenSent must be answered with KEEPALIVE and lead to OpenConfirm', cls)
+                        self.fail('C05', 'an acceptable peer OPEN (version 4, configured AS, hold %d) was not accepted: state %s, sent %r' % (
+                            cls[1], ns, notifs), 'accept-iff')
+                    else:
+                        h = min(self.cfg['hold_time'], cls[1])
+                        tm = obs['timers']
+                        want_hold = [obs['now'] + 3 * h] if h > 0 else None
+                        want_ka = [obs['now'] + h] if h > 0 else None
+                        if tm.get('hold') != want_hold or tm.get('keepalive') != want_ka:
+                            self.fail('C05', 'session hold time is not min(configured %d, proposed %d): timers %r at %d' % (
+                                self.cfg['hold_time'], cls[1], tm, obs['now']), 'hold-min')
                 else:
                     expect_error(cls, 5, 0)
             elif c0 == 'keepalive':
